@@ -145,6 +145,8 @@ class Model(object):
                     # N10: locals the reference function does not have are replaced by their definition where that is safe
                     again = False
                     for qual, fn in canon.outer_functions(tree):
+                        if '__ifexp__' in ref and canon.align_ifexp(fn, ref['__ifexp__'].get(qual, ())):
+                            again = True
                         new = canon.new_locals(rel, qual, fn)
                         if new:
                             done = inline.inline_temps(fn, new)
